@@ -38,6 +38,12 @@ type Range struct {
 	Len  int    `json:"len"`
 }
 
+// MoreSeg: see Trace.More.
+type MoreSeg struct {
+	Gap int    `json:"gap"`
+	Hex string `json:"hex"`
+}
+
 type Trace struct {
 	Prog     []rvref.ProgIns   `json:"prog"`
 	Entry    uint64            `json:"entry"`
@@ -46,6 +52,7 @@ type Trace struct {
 	Bss      int               `json:"bss"`
 	Gap2     int               `json:"gap2,omitempty"`  // hole between the data segment and a second one (0 = none)
 	Data2    string            `json:"data2,omitempty"` // bytes of the second data segment
+	More     []MoreSeg         `json:"more,omitempty"`  // further data segments, each Gap bytes (0 = exactly adjacent) behind the previous one
 	Seed     uint64            `json:"seed"`
 	RegInit  map[string]uint64 `json:"reg_init,omitempty"` // "5" -> value
 	KnownReg []int             `json:"known_reg,omitempty"`
@@ -146,6 +153,16 @@ func (e *Engine) Generate(r *core.Rand, prop string, tier string) core.Trace {
 		// start in one block, cross the hole and end in the other
 		t.Gap2 = r.Range(1, 7)
 		t.Data2 = hex.EncodeToString(r.Bytes(r.Range(1, 16)))
+		if r.Chance(1, 2) {
+			// groups of exactly adjacent image blocks with holes between the groups
+			for k := r.Range(1, 4); k > 0; k-- {
+				g := 0
+				if r.Chance(1, 3) {
+					g = r.Range(1, 7)
+				}
+				t.More = append(t.More, MoreSeg{Gap: g, Hex: hex.EncodeToString(r.Bytes(r.Range(1, 12)))})
+			}
+		}
 	}
 	// pointer registers are steered into one of two small windows: the data
 	// segment of the image (accesses overlap earlier ones, straddle the end
@@ -158,7 +175,7 @@ func (e *Engine) Generate(r *core.Rand, prop string, tier string) core.Trace {
 			}
 			return winB + uint64(r.Intn(24))
 		case 1:
-			return t.DataAddr + uint64(dl+t.Bss+r.Intn(t.Gap2+1)) - uint64(r.Intn(9)) // around the end of the image / the hole
+			return t.DataAddr + uint64(dl+t.Bss+r.Intn(t.Gap2+1+12*len(t.More))) - uint64(r.Intn(9)) // around the end of the image / the holes
 		case 2:
 			return t.Prog[len(t.Prog)-1].Addr + 4 - uint64(r.Intn(8)) // reads straddling the end of the code image
 		default:
@@ -422,6 +439,24 @@ func (e *Engine) Execute(tr core.Trace, ctx *core.Ctx) {
 	} else {
 		data2 = nil
 	}
+	type extra struct {
+		addr uint64
+		bs   []byte
+	}
+	var extras []extra
+	if len(data2) > 0 {
+		at := data2Addr + uint64(len(data2))
+		for i, ms := range t.More {
+			bs, _ := hex.DecodeString(ms.Hex)
+			if i >= 6 || ms.Gap < 0 || ms.Gap > 64 || len(bs) == 0 || len(bs) > 64 {
+				break
+			}
+			at += uint64(ms.Gap)
+			segs = append(segs, imggen.DataSeg{Addr: at, Data: bs})
+			extras = append(extras, extra{at, bs})
+			at += uint64(len(bs))
+		}
+	}
 	desc := imggen.ExecSegs(t.Prog, t.Entry, segs)
 	var ld *imggen.Loaded
 	var err error
@@ -456,6 +491,14 @@ func (e *Engine) Execute(tr core.Trace, ctx *core.Ctx) {
 	}
 	for i, b := range data2 {
 		r.mem.image[data2Addr+uint64(i)] = b
+	}
+	for _, ex := range extras {
+		for i, b := range ex.bs {
+			r.mem.image[ex.addr+uint64(i)] = b
+		}
+	}
+	if len(extras) > 0 {
+		ctx.Probe("image_with_groups_of_adjacent_blocks")
 	}
 	if len(data2) > 0 {
 		ctx.Probe("image_with_a_small_hole")
